@@ -516,3 +516,75 @@ package fpgo
 //@   invariant mono: true && forall2(a, 0, len(streams)+1, b, 0, len(streams)+1, a <= b ==> off[a] <= off[b]) && _i2 < len(streams)
 //@   invariant placing: fresh(newOne) && len(newOne) == off[len(streams)] && target == *stream && targetLen == len(target) && totalIndex == off[_i2] && stream == streams[_i2] && off[0] == len(*streamSelf) && forall(k, 0, len(streams), off[k+1] == off[k] + ite(streams[k] == nil, 0, len(*streams[k])) && off[k] <= off[k+1]) && forall(i, 0, len(mine), newOne[i] == mine[i]) && forall(k, 0, _i2, streams[k] != nil ==> forall(j, 0, len(*streams[k]), newOne[off[k]+j] == (*streams[k])[j])) && forall(j, 0, _i, newOne[totalIndex+j] == target[j]) && mine == *streamSelf
 //@ twin (StreamDef).Extend (StreamForInterfaceDef).Extend prop C04,C05
+
+// MapValue / MapKey / RemoveValues of the generic MapSetDef: fresh result, receiver unwritten (frame)
+//@ func (MapSetDef).MapValue
+//@   prop C04,C05
+//@   requires mapSetSelf != nil
+//@   ensures fresh-result: MS_FRESH(r0)
+//@   ensures same-keys: forallv(x, has(MSR(r0), x) == has(*mapSetSelf, x))
+//@   ensures mapped-values: forallv(x, has(*mapSetSelf, x) ==> MSR(r0)[x] == fn((*mapSetSelf)[x]))
+//@ func (MapSetDef).MapValue loop 0
+//@   invariant result: result != nil && fresh(result)
+//@   invariant keys: forallv(x, has(result, x) == _visited(x))
+//@   invariant values: forallv(x, _visited(x) ==> result[x] == fn((*mapSetSelf)[x]))
+
+//@ func (MapSetDef).MapKey
+//@   prop C04,C05
+//@   requires mapSetSelf != nil
+//@   ensures fresh-result: MS_FRESH(r0)
+//@   ensures image-keys: forallv(y, has(MSR(r0), y) == existsv(x, has(*mapSetSelf, x) && fn(x) == y))
+//@   ensures values-from-a-preimage: forallv(y, has(MSR(r0), y) ==> existsv(x, has(*mapSetSelf, x) && fn(x) == y && MSR(r0)[y] == (*mapSetSelf)[x]))
+//@ func (MapSetDef).MapKey loop 0
+//@   invariant result: result != nil && fresh(result)
+//@   invariant image-keys: forallv(y, has(result, y) == existsv(x, _visited(x) && fn(x) == y))
+//@   invariant values-from-a-preimage: forallv(y, has(result, y) ==> existsv(x, _visited(x) && fn(x) == y && result[y] == (*mapSetSelf)[x]))
+
+//@ func (MapSetDef).RemoveValues
+//@   prop C04,C05
+//@   opt dispatch=force
+//@   requires mapSetSelf != nil
+//@   ensures nothing-to-remove: len(input) == 0 ==> r0 == boxed(mapSetSelf)
+//@   ensures fresh-result: len(input) > 0 ==> MS_FRESH(r0)
+//@   ensures keys: len(input) > 0 ==> forallv(x, has(MSR(r0), x) == (has(*mapSetSelf, x) && !exists(i, 0, len(input), input[i] == (*mapSetSelf)[x])))
+//@   ensures values-kept: len(input) > 0 ==> forallv(x, has(MSR(r0), x) ==> MSR(r0)[x] == (*mapSetSelf)[x])
+//@ func (MapSetDef).RemoveValues loop 0
+//@   invariant result: MS_FRESH(result)
+//@   invariant value-set: fresh(valueMap) && valueMap != MSR(result) && valueMap != *mapSetSelf && forallv(y, has(valueMap, y) == exists(i, 0, len(input), input[i] == y))
+//@   invariant keys: forallv(x, has(MSR(result), x) == (has(*mapSetSelf, x) && !(_visited(x) && exists(i, 0, len(input), input[i] == (*mapSetSelf)[x]))))
+//@   invariant values-kept: forallv(x, has(MSR(result), x) ==> MSR(result)[x] == (*mapSetSelf)[x])
+
+//@ func (SetForInterfaceDef).MapValue
+//@   prop C04,C05
+//@   requires setSelf != nil
+//@   ensures fresh-result: r0 != nil && fresh(r0) && *r0 != nil && fresh(*r0)
+//@   ensures same-keys: forallv(x, has(*r0, x) == has(*setSelf, x))
+//@   ensures mapped-values: forallv(x, has(*setSelf, x) ==> (*r0)[x] == fn((*setSelf)[x]))
+//@ func (SetForInterfaceDef).MapValue loop 0
+//@   invariant result: result != nil && fresh(result)
+//@   invariant keys: forallv(x, has(result, x) == _visited(x))
+//@   invariant values: forallv(x, _visited(x) ==> result[x] == fn((*setSelf)[x]))
+
+//@ func (SetForInterfaceDef).MapKey
+//@   prop C04,C05
+//@   requires setSelf != nil
+//@   ensures fresh-result: r0 != nil && fresh(r0) && *r0 != nil && fresh(*r0)
+//@   ensures image-keys: forallv(y, has(*r0, y) == existsv(x, has(*setSelf, x) && fn(x) == y))
+//@   ensures values-from-a-preimage: forallv(y, has(*r0, y) ==> existsv(x, has(*setSelf, x) && fn(x) == y && (*r0)[y] == (*setSelf)[x]))
+//@ func (SetForInterfaceDef).MapKey loop 0
+//@   invariant result: result != nil && fresh(result)
+//@   invariant image-keys: forallv(y, has(result, y) == existsv(x, _visited(x) && fn(x) == y))
+//@   invariant values-from-a-preimage: forallv(y, has(result, y) ==> existsv(x, _visited(x) && fn(x) == y && result[y] == (*setSelf)[x]))
+
+//@ func (SetForInterfaceDef).RemoveValues
+//@   prop C04,C05
+//@   requires setSelf != nil
+//@   ensures nothing-to-remove: len(input) == 0 ==> r0 == setSelf
+//@   ensures fresh-result: len(input) > 0 ==> r0 != nil && fresh(r0) && *r0 != nil && fresh(*r0)
+//@   ensures keys: len(input) > 0 ==> forallv(x, has(*r0, x) == (has(*setSelf, x) && !exists(i, 0, len(input), input[i] == (*setSelf)[x])))
+//@   ensures values-kept: len(input) > 0 ==> forallv(x, has(*r0, x) ==> (*r0)[x] == (*setSelf)[x])
+//@ func (SetForInterfaceDef).RemoveValues loop 0
+//@   invariant result: result != nil && fresh(result) && *result != nil && fresh(*result)
+//@   invariant value-set: fresh(valueMap) && valueMap != *result && valueMap != *setSelf && forallv(y, has(valueMap, y) == exists(i, 0, len(input), input[i] == y))
+//@   invariant keys: forallv(x, has(*result, x) == (has(*setSelf, x) && !(_visited(x) && exists(i, 0, len(input), input[i] == (*setSelf)[x]))))
+//@   invariant values-kept: forallv(x, has(*result, x) ==> (*result)[x] == (*setSelf)[x])
